@@ -152,6 +152,14 @@ func verifyFunc(reg *Registry, pkgRel, key string, closureOrd int) (rep FuncRepo
 		fc.root, fc.contract, fc.resNames = inner, cc, cc.Results
 		fr, c, sig, body = inner, cc, lsig, lit.Body
 	}
+	lockKey := pkgRel + ":" + key
+	if closureOrd > 0 {
+		lockKey += fmt.Sprintf("$closure%d", closureOrd)
+	}
+	fc.rebind = bindLocals(lockKey, c, body, pkg.TypesInfo)
+	for from, to := range fc.rebind {
+		reg.assumptions[fmt.Sprintf("local %q named by the contract of %s was rebound to %q (same type and declaration ordinal, contracts.lock.json)", from, name, to.Name())] = true
+	}
 	// requires
 	fc.entry = st // so that oldEnv works while evaluating requires
 	env := &SpecEnv{reg: reg, pkg: pkg, st: st, vars: fc.paramVals}
